@@ -10,6 +10,7 @@ import (
 	"go/types"
 	"strconv"
 	"strings"
+	"unicode/utf8"
 )
 
 // SymInt is an integer whose value is the SMT Int term T.
@@ -305,6 +306,9 @@ func ropeEq(x, y value) value {
 	if len(a) == 0 && minLen(b) > 0 || len(b) == 0 && minLen(a) > 0 {
 		return false
 	}
+	if r, ok := cellEq(a, b); ok {
+		return r
+	}
 	if r, ok := codeEq(a, b); ok {
 		return r
 	}
@@ -495,3 +499,77 @@ func intKind(v value) types.BasicKind {
 
 // StrLit is the exported SMT string literal renderer.
 func StrLit(s string) string { return smtStrLit(s) }
+
+// cellEq compares part lists made only of literals and symbolic characters:
+// they have known byte lengths, so equality is a conjunction of character
+// equalities.
+func cellEq(a, b []Part) (value, bool) {
+	hasCell := false
+	for _, ps := range [][]Part{a, b} {
+		for _, p := range ps {
+			switch p.Kind {
+			case PLit:
+			case PCell:
+				hasCell = true
+			default:
+				return nil, false
+			}
+		}
+	}
+	if !hasCell {
+		return nil, false
+	}
+	type unit struct {
+		sym   string // cell term ("" for a concrete rune)
+		r     rune
+		width int
+	}
+	expand := func(ps []Part) ([]unit, bool) {
+		var us []unit
+		for _, p := range ps {
+			if p.Kind == PCell {
+				us = append(us, unit{sym: p.Lit, width: p.Width})
+				continue
+			}
+			for i := 0; i < len(p.Lit); {
+				r, n := utf8.DecodeRuneInString(p.Lit[i:])
+				if r == utf8.RuneError && n <= 1 {
+					return nil, false
+				}
+				us = append(us, unit{r: r, width: n})
+				i += n
+			}
+		}
+		return us, true
+	}
+	ua, ok1 := expand(a)
+	ub, ok2 := expand(b)
+	if !ok1 || !ok2 {
+		return nil, false
+	}
+	if len(ua) != len(ub) {
+		return false, true
+	}
+	var terms []string
+	for i := range ua {
+		x, y := ua[i], ub[i]
+		if x.width != y.width {
+			return false, true
+		}
+		switch {
+		case x.sym == "" && y.sym == "":
+			if x.r != y.r {
+				return false, true
+			}
+		case x.sym != "" && y.sym != "":
+			if x.sym != y.sym {
+				terms = append(terms, fmt.Sprintf("(= %s %s)", x.sym, y.sym))
+			}
+		case x.sym != "":
+			terms = append(terms, fmt.Sprintf("(= %s %d)", x.sym, y.r))
+		default:
+			terms = append(terms, fmt.Sprintf("(= %s %d)", y.sym, x.r))
+		}
+	}
+	return mkBool(andTerm(terms...)), true
+}
